@@ -225,6 +225,19 @@ def _check(case):
     perm = [rows.index(nm) for nm in names]       # reference index -> acov index
     acov = api("get_acov", m.get_acov, up_to_order=order)
     acorr = api("get_acorr", m.get_acorr, up_to_order=order)
+    # the route get_acorr(acov=...) on what get_acov returned: same result, and the caller's matrices stay as they were
+    import copy as _copy
+    acov_before = _copy.deepcopy(acov)
+    acorr_from = api("get_acorr_from_acov", lambda: m.get_acorr(acov=acov))
+
+    def _flat(a):
+        return [np.asarray(x, dtype=float) for x in ([y for v_ in a for y in v_] if nv > 1 else list(a))]
+    same_ = all(x.shape == y.shape and np.array_equal(x, y, equal_nan=True) for x, y in zip(_flat(acov), _flat(acov_before)))
+    col.check(same_, "acorr:modifies_acov_argument", lambda: "get_acorr(acov=acov) changed the matrices get_acov had returned to the caller")
+    if same_:
+        fa, fb = _flat(acorr_from), _flat(acorr)
+        col.check(len(fa) == len(fb) and all(x.shape == y.shape and np.allclose(x, y, rtol=1e-12, atol=1e-14, equal_nan=True) for x, y in zip(fa, fb)),
+                  "acorr:from_acov_differs", lambda: "get_acorr(acov=get_acov(...)) differs from get_acorr(...)")
     if nv == 1:
         acov, acorr = [acov], [acorr]
     col.check(len(acov) == nv, "variants_count", lambda: f"{len(acov)} entries for {nv} variants")
